@@ -197,6 +197,26 @@ func (m *ibtpModel) afterBlock(h uint64, txs []*pb.BxhTransaction, metas []*txMe
 		} else if !mt.proofOK && mt.kind != "entry" {
 			s.vio("C03", "unverified-ibtp-accepted", proofClass(mt.note), "block %d tx %d: IBTP %s was accepted although its proof is %s", h, i, id, mt.note)
 		}
+		if old, ok := m.txs[id]; ok && mt.kind == "notice" && old.status != stNone {
+			// the destination hub's verdict on a request this hub accepted earlier
+			s.res.Count("xhub_notice_accepted")
+			prev, next := old.status, stNone
+			if prev == stBegin {
+				next = stFailure
+				if strings.Contains(mt.note, "BEGIN_ROLLBACK") {
+					next = stRollback
+				}
+			}
+			if next == stNone {
+				s.vio("C04", "illegal-transition", stName(prev)+"+notice", "block %d tx %d: the other BitXHub's notice (%s) for %s was accepted although the transaction was in status %s", h, i, mt.note, id, stName(prev))
+				continue
+			}
+			old.status, old.finalAt = next, h
+			if ib.Index > pm.rcptAccepted {
+				pm.rcptAccepted = ib.Index
+			}
+			continue
+		}
 		if ib.Category() == pb.IBTP_REQUEST {
 			if !pm.batch && ib.Index != pm.reqAccepted+1 {
 				cls := "gap"
@@ -217,6 +237,10 @@ func (m *ibtpModel) afterBlock(h uint64, txs []*pb.BxhTransaction, metas []*txMe
 				s.res.Count("probe_begin_failure")
 			}
 			t := ib.TimeoutHeight
+			if strings.HasPrefix(ib.To, relayHubID+":") && !strings.HasPrefix(ib.From, relayHubID+":") {
+				t = 0 // between two BitXHubs the destination hub keeps the time; the source hub learns of a timeout by its notice
+				s.res.Count("xhub_request_accepted")
+			}
 			if t > 0 && uint64(t) < math.MaxUint64-h && tm.status == stBegin {
 				tm.expiry = h + uint64(t)
 			}
